@@ -174,6 +174,17 @@ func BuildLayer(rng *prng.R, to gen.Opts, bo blob.Opts, landmark string, forceRo
 // chunk read), tar chunk sizes 512..4096, ~1 in 4 with an explicit "./" root entry when
 // rootEntries is set.
 func Pool(rng *prng.R, n int, rootEntries bool) ([]*LayerSpec, error) {
+	mode := 0
+	if rootEntries {
+		mode = 1
+	}
+	return pool(rng, n, mode)
+}
+
+// RootPool: like Pool, every tar has an explicit "./" root entry.
+func RootPool(rng *prng.R, n int) ([]*LayerSpec, error) { return pool(rng, n, 2) }
+
+func pool(rng *prng.R, n int, rootMode int) ([]*LayerSpec, error) {
 	var res []*LayerSpec
 	for i := 0; i < n; i++ {
 		lrng := rng.Derive(uint64(i))
@@ -186,7 +197,7 @@ func Pool(rng *prng.R, n int, rootEntries bool) ([]*LayerSpec, error) {
 		lm := []string{LmPrefetch, LmNoPrefetch, LmNone}[i%3]
 		to := TarOpts(int64(chunk), false, 8)
 		to.MaxFileSize = 3 * int64(chunk)
-		force := rootEntries && lrng.Chance(1, 4)
+		force := rootMode == 2 || (rootMode == 1 && lrng.Chance(1, 4))
 		ls, err := BuildLayer(lrng, to, bo, lm, force)
 		if err != nil {
 			return nil, fmt.Errorf("pool layer %d: %w", i, err)
@@ -537,10 +548,40 @@ func GCCycle(watchdog time.Duration) bool {
 	}
 }
 
+// GoroutinesIn counts the goroutines that currently have a frame containing substr.
+func GoroutinesIn(substr string) int {
+	buf := make([]byte, 4<<20)
+	for {
+		n := runtime.Stack(buf, true)
+		if n < len(buf) {
+			buf = buf[:n]
+			break
+		}
+		if len(buf) >= 256<<20 {
+			break
+		}
+		buf = make([]byte, 2*len(buf))
+	}
+	cnt := 0
+	for _, g := range strings.Split(string(buf), "\n\n") {
+		if strings.Contains(g, substr) {
+			cnt++
+		}
+	}
+	return cnt
+}
+
+// cacheWriterFrame marks the goroutines of the directory cache that still own a wip file:
+// the write-behind goroutine started by Commit (SyncAdd=false) and any caller inside the
+// cache package.
+const cacheWriterFrame = "stargz-snapshotter/cache.(*directoryCache)"
+
 // LeakedFds runs the fd scan of DESIGN.md C12: two forced GC cycles first (descriptors
-// cached by a closed directory cache are closed by os.File finalizers), then up to
-// `extra` further cycles while something is still open (descriptors of write-behind
-// goroutines that are just finishing). Returns what survived all of them.
+// cached by a closed directory cache are closed by os.File finalizers), then, while
+// something is still open: wait (state, not time) until no goroutine is inside the
+// directory cache any more (a write-behind goroutine that is still blocked in write/rename
+// on a loaded disk closes its wip file when it gets there), then up to `extra` further GC
+// cycles. Returns what survived all of that; conclusive=false when a generous watchdog fired.
 func LeakedFds(root string, extra int, exclude ...string) (left []string, conclusive bool) {
 	for i := 0; i < 2; i++ {
 		if !GCCycle(60 * time.Second) {
@@ -548,8 +589,16 @@ func LeakedFds(root string, extra int, exclude ...string) (left []string, conclu
 		}
 	}
 	left = FdsBelow(root, exclude...)
-	for i := 0; i < extra && len(left) > 0; i++ {
+	deadline := time.Now().Add(90 * time.Second)
+	for len(left) > 0 && GoroutinesIn(cacheWriterFrame) > 0 {
+		if time.Now().After(deadline) {
+			return left, false
+		}
 		time.Sleep(10 * time.Millisecond)
+		left = FdsBelow(root, exclude...)
+	}
+	for i := 0; i < extra && len(left) > 0; i++ {
+		time.Sleep(5 * time.Millisecond)
 		if !GCCycle(60 * time.Second) {
 			return nil, false
 		}
